@@ -255,12 +255,19 @@ func (g *Gen) genNode(depth int, keyable bool) *Node {
 			return g.genStructKey(depth, keyable)
 		case KSlice:
 			n.Elem = g.genElem(depth + 1)
+			if ie := g.ifaceElem(depth+1, 6); ie != nil {
+				n.Elem = ie
+			}
 			n.T = reflect.SliceOf(n.Elem.T)
 		case KArr:
 			return g.genArr(depth)
 		case KMap:
 			n.Key = g.genNode(maxInt(depth+1, g.maxDepth-1), true)
 			n.Elem = g.genElem(depth + 1)
+			if ie := g.ifaceElem(depth+1, 4); ie != nil {
+				n.Elem = ie // map with interface-typed values (the decoder looks up the settings of the nil element first)
+				g.feat("map-iface-elem")
+			}
 			n.T = reflect.MapOf(n.Key.T, n.Elem.T)
 		case KIface:
 			n.Iface = g.genIface(depth + 1)
@@ -473,6 +480,18 @@ func (g *Gen) genCustom(depth int, withCode bool) *Node {
 		g.feat("custom-validator")
 	}
 	return n
+}
+
+// ifaceElem: with probability 1/k an element of one of the registered interface types (also at leaf depth).
+func (g *Gen) ifaceElem(depth int, k int) *Node {
+	if !g.r.Chance(1, k) {
+		return nil
+	}
+	inf := g.genIface(depth)
+	if inf == nil || len(inf.Alts) == 0 {
+		return nil
+	}
+	return &Node{K: KIface, Iface: inf, T: inf.T, Depth: depth}
 }
 
 // genIface picks one of the three interface types; its alternatives are generated once per shape.
